@@ -238,6 +238,12 @@ int32_t jls_core_signal_def_align(struct jls_signal_def_s * def) {
 
     samples_per_data = sample_decimate_factor * entries_per_data;
 
+    if ((samples_per_data > param_max) || (sample_decimate_factor > param_max) || (entries_per_summary > param_max)) {
+        // rounded up beyond the limit: the stored definition would be refused when used again
+        JLS_LOGW("signal definition parameter too large after alignment");
+        return JLS_ERROR_PARAMETER_INVALID;
+    }
+
     if (sample_decimate_factor != def->sample_decimate_factor) {
         JLS_LOGI("sample_decimate_factor adjusted from %" PRIu32 " to %" PRIu32,
                 def->sample_decimate_factor, sample_decimate_factor);
